@@ -470,12 +470,41 @@ def _method_runner(repo, m, cls):
     return call
 
 
+def _explore(histories, fresh, step, observe, maxlen):
+    """every history of <= maxlen steps observed at its end, then every history of exactly maxlen steps
+    observed after each step on the same instance (reads between writes must not change later answers).
+    Returns (count, bad) with bad = (history, observed, expected, interleaved?)"""
+    n = 0
+    for L in range(0, maxlen + 1):
+        for hist in histories(L):
+            n += 1
+            t, ref = fresh()
+            for h in hist:
+                step(t, ref, h)
+            obs, exp = observe(t, ref)
+            if obs != exp:
+                d = [(o, e) for o, e in zip(obs, exp) if o != e][0]
+                return n, (hist, d[0], d[1], False)
+    if maxlen >= 2:
+        for hist in histories(maxlen):
+            n += 1
+            t, ref = fresh()
+            obs, exp = observe(t, ref)
+            for i, h in enumerate(hist):
+                step(t, ref, h)
+                obs, exp = observe(t, ref)
+                if obs != exp:
+                    d = [(o, e) for o, e in zip(obs, exp) if o != e][0]
+                    return n, (hist[:i + 1], d[0], d[1], True)
+    return n, None
+
+
 def rule_triedict_model(ctx, rule, maxlen=2):
     """TrieDict against a reference dict on every assignment history of length <= maxlen over a 5-key universe."""
     import itertools
     from ..microeval import Raised
     from ..srcmodel import Unknown
-    ctx.rule(rule, "bounded model table: TrieDict, interpreted (analyser's evaluator) on EVERY history of <= %d assignments over the keys {(), a, ab, abc, b} x values {1, None}, is observationally the dictionary of those assignments: len, get (with default), indexing / KeyError, items / prefixes / values (as multisets), and longest_matching_prefix_value on 8 queries agree with a reference dict after each history" % maxlen)
+    ctx.rule(rule, "bounded model table: TrieDict, interpreted (analyser's evaluator) on EVERY history of <= %d assignments over the keys {(), a, ab, abc, b} x values {1, None}, is observationally the dictionary of those assignments: len, get (with default), indexing / KeyError, items / prefixes / values (as multisets), and longest_matching_prefix_value on 8 queries agree with a reference dict after each history, and again when every observation is also made between the assignments" % maxlen)
     repo = ctx.repo
     keys = [(), ("a",), ("a", "b"), ("a", "b", "c"), ("b",)]
     queries = [(), ("a",), ("a", "b"), ("a", "b", "c"), ("a", "b", "c", "d"), ("a", "x"), ("b", "b"), ("c",)]
@@ -486,53 +515,49 @@ def rule_triedict_model(ctx, rule, maxlen=2):
     site = m.site(cls)
     ctx.fn("ural.classes.trie_dict.TrieDict")
     call = _method_runner(repo, m, cls)
-    n = 0
-    bad = None
+    def fresh():
+        return _instantiate(repo, "classes.trie_dict", "TrieDict")[2], {}
+
+    def step(t, ref, op):
+        k, v = op
+        call(t, "__setitem__", list(k), v)
+        ref[k] = v
+
+    def observe(t, ref):
+        obs = []
+        exp = []
+        obs.append(("len", call(t, "__len__")))
+        exp.append(("len", len(ref)))
+        for q in queries:
+            obs.append(("get", q, call(t, "get", list(q), "D")))
+            exp.append(("get", q, ref.get(q, "D")))
+            try:
+                g = call(t, "__getitem__", list(q))
+            except Raised as e:
+                g = "raises " + e.name
+            obs.append(("getitem", q, g))
+            exp.append(("getitem", q, ref[q] if q in ref else "raises KeyError"))
+            best = None
+            for k in sorted(ref, key=len):
+                if q[:len(k)] == k:
+                    best = k
+            obs.append(("longest", q, call(t, "longest_matching_prefix_value", list(q))))
+            exp.append(("longest", q, ref[best] if best is not None else None))
+        obs.append(("items", sorted((tuple(p), repr(v)) for p, v in call(t, "items"))))
+        exp.append(("items", sorted((k, repr(v)) for k, v in ref.items())))
+        obs.append(("prefixes", sorted(tuple(p) for p in call(t, "prefixes"))))
+        exp.append(("prefixes", sorted(ref)))
+        obs.append(("values", sorted(repr(v) for v in call(t, "values"))))
+        exp.append(("values", sorted(repr(v) for v in ref.values())))
+        return obs, exp
+
     try:
-        for L in range(0, maxlen + 1):
-            for hist in itertools.product(ops, repeat=L):
-                n += 1
-                _, _, t = _instantiate(repo, "classes.trie_dict", "TrieDict")
-                ref = {}
-                for k, v in hist:
-                    call(t, "__setitem__", list(k), v)
-                    ref[k] = v
-                obs = []
-                exp = []
-                obs.append(("len", call(t, "__len__")))
-                exp.append(("len", len(ref)))
-                for q in queries:
-                    obs.append(("get", q, call(t, "get", list(q), "D")))
-                    exp.append(("get", q, ref.get(q, "D")))
-                    try:
-                        g = call(t, "__getitem__", list(q))
-                    except Raised as e:
-                        g = "raises " + e.name
-                    obs.append(("getitem", q, g))
-                    exp.append(("getitem", q, ref[q] if q in ref else "raises KeyError"))
-                    best = None
-                    for k in sorted(ref, key=len):
-                        if q[:len(k)] == k:
-                            best = k
-                    obs.append(("longest", q, call(t, "longest_matching_prefix_value", list(q))))
-                    exp.append(("longest", q, ref[best] if best is not None else None))
-                obs.append(("items", sorted((tuple(p), repr(v)) for p, v in call(t, "items"))))
-                exp.append(("items", sorted((k, repr(v)) for k, v in ref.items())))
-                obs.append(("prefixes", sorted(tuple(p) for p in call(t, "prefixes"))))
-                exp.append(("prefixes", sorted(ref)))
-                obs.append(("values", sorted(repr(v) for v in call(t, "values"))))
-                exp.append(("values", sorted(repr(v) for v in ref.values())))
-                if obs != exp:
-                    d = [(o, e) for o, e in zip(obs, exp) if o != e][0]
-                    bad = (hist, d[0], d[1])
-                    break
-            if bad:
-                break
+        n, bad = _explore(lambda L: itertools.product(ops, repeat=L), fresh, step, observe, maxlen)
     except Unknown as e:
         ctx.undecided(rule, "TrieDict not interpretable: %s" % e)
         return
     ctx.ob(rule, "triedict/histories", bad is None,
-           "after the assignments %r TrieDict reports %r where a dictionary reports %r" % (bad or ("", "", "")), site,
+           "after the assignments %r%s TrieDict reports %r where a dictionary reports %r" % ((bad[0], " (every observation also made after each earlier step)" if bad[3] else "", bad[1], bad[2]) if bad else ("", "", "", "")), site,
            witness=bad and "; ".join("t[%r] = %r" % (list(k), v) for k, v in bad[0]), sample="%d histories of <= %d assignments" % (n, maxlen))
 
 
@@ -541,10 +566,10 @@ def rule_hostset_model(ctx, rule, maxlen=3):
     import itertools
     from ..microeval import Raised
     from ..srcmodel import Unknown
-    ctx.rule(rule, "bounded model table: HostnameTrieSet, interpreted on EVERY ordered selection of <= %d adds over {a.com, b.a.com, c.b.a.com, A.COM, x.org, xn--caf-dma.fr, café.fr, www.a.com.evil.org}: match(url) is true exactly for hosts equal to or under an added host (whole labels, case-insensitive, punycode = Unicode), len and iteration give the minimal covering set, and nothing depends on the order of the adds" % maxlen)
+    ctx.rule(rule, "bounded model table: HostnameTrieSet, interpreted on EVERY ordered selection of <= %d adds over {a.com, b.a.com, c.b.a.com, A.COM, x.org, xn--caf-dma.fr, café.fr, www.a.com.evil.org, ORG, xn--p1ai} (observed at the end, and again with every observation repeated after each add): match(url) is true exactly for hosts equal to or under an added host (whole labels, case-insensitive, punycode = Unicode), len and iteration give the minimal covering set, and nothing depends on the order of the adds" % maxlen)
     repo = ctx.repo
-    hosts = ["a.com", "b.a.com", "c.b.a.com", "A.COM", "x.org", "xn--caf-dma.fr", "café.fr", "www.a.com.evil.org"]
-    probes = ["http://a.com/x", "https://B.A.com:8080/", "c.b.a.com", "http://xa.com/", "http://a.com.evil.org/", "http://www.a.com.evil.org/p", "http://café.fr/", "http://XN--CAF-DMA.fr/", "http://sub.café.fr/", "http://org/", "http://y.x.org/?u=a.com", "http://fr/"]
+    hosts = ["a.com", "b.a.com", "c.b.a.com", "A.COM", "x.org", "xn--caf-dma.fr", "café.fr", "www.a.com.evil.org", "ORG", "xn--p1ai"]
+    probes = ["http://\u043a\u0442\u043e.\u0440\u0444/", "http://xn--p1ai/", "http://a.com/x", "https://B.A.com:8080/", "c.b.a.com", "http://xa.com/", "http://a.com.evil.org/", "http://www.a.com.evil.org/p", "http://café.fr/", "http://XN--CAF-DMA.fr/", "http://sub.café.fr/", "http://org/", "http://y.x.org/?u=a.com", "http://fr/"]
     m = repo.mod("classes.hostname_trie_set")
     cls = m.klass("HostnameTrieSet")
     site = m.site(cls)
@@ -558,35 +583,30 @@ def rule_hostset_model(ctx, rule, maxlen=3):
         from urllib.parse import urlsplit
         return norm(urlsplit(u if "//" in u else "http://" + u).hostname or "")
 
-    n = 0
-    bad = None
+    def fresh():
+        return _instantiate(repo, "classes.hostname_trie_set", "HostnameTrieSet")[2], set()
+
+    def step(t, added, h):
+        call(t, "add", h)
+        added.add(norm(h))
+
+    def observe(t, added):
+        cover = set(h for h in added if not any(h != g and h.endswith("." + g) for g in added))
+        obs = [("len", call(t, "__len__")), ("iter", sorted(call(t, "__iter__")))]
+        exp = [("len", len(cover)), ("iter", sorted(cover))]
+        for u in probes:
+            hu = host_of(u)
+            obs.append(("match", u, bool(call(t, "match", u))))
+            exp.append(("match", u, any(hu == g or hu.endswith("." + g) for g in added)))
+        return obs, exp
+
     try:
-        for L in range(0, maxlen + 1):
-            for sel in itertools.permutations(hosts, L):
-                n += 1
-                _, _, t = _instantiate(repo, "classes.hostname_trie_set", "HostnameTrieSet")
-                added = set()
-                for h in sel:
-                    call(t, "add", h)
-                    added.add(norm(h))
-                cover = set(h for h in added if not any(h != g and h.endswith("." + g) for g in added))
-                obs = [("len", call(t, "__len__")), ("iter", sorted(call(t, "__iter__")))]
-                exp = [("len", len(cover)), ("iter", sorted(cover))]
-                for u in probes:
-                    hu = host_of(u)
-                    obs.append(("match", u, bool(call(t, "match", u))))
-                    exp.append(("match", u, any(hu == g or hu.endswith("." + g) for g in added)))
-                if obs != exp:
-                    d = [(o, e) for o, e in zip(obs, exp) if o != e][0]
-                    bad = (sel, d[0], d[1])
-                    break
-            if bad:
-                break
+        n, bad = _explore(lambda L: itertools.permutations(hosts, L), fresh, step, observe, maxlen)
     except Unknown as e:
         ctx.undecided(rule, "HostnameTrieSet not interpretable: %s" % e)
         return
     ctx.ob(rule, "hostset/histories", bad is None,
-           "after add(%s) HostnameTrieSet reports %r, the set of hosts at or under the added domains gives %r" % ((", ".join(map(repr, bad[0])), bad[1], bad[2]) if bad else ("", "", "")), site,
+           "after add(%s)%s HostnameTrieSet reports %r, the set of hosts at or under the added domains gives %r" % ((", ".join(map(repr, bad[0])), " (every observation also made after each earlier add)" if bad[3] else "", bad[1], bad[2]) if bad else ("", "", "", "")), site,
            witness=bad and "; ".join("add(%r)" % h for h in bad[0]), sample="%d ordered selections of <= %d adds" % (n, maxlen))
 
 
@@ -596,9 +616,9 @@ def rule_lrutrie_model(ctx, rule, maxlen=2):
     from ..microeval import Raised
     from ..srcmodel import Unknown
     from .common_lru import _ref_stems
-    ctx.rule(rule, "bounded model table: LRUTrie, interpreted on EVERY history of <= %d stores over {http://a.com, http://a.com/, http://a.com/x, http://a.com/x/, http://a.com/x/y?q=1, http://b.a.com/x} (through set, __setitem__, set_lru with a stem list and set_lru with a serialized LRU in turn): match / match_lru return the latest value stored under the longest stored url whose stems (empty path stems aside) prefix the query's, None when there is none; len and iteration report each stored entry once" % maxlen)
+    ctx.rule(rule, "bounded model table: LRUTrie, interpreted on EVERY history of <= %d stores over {http://a.com, http://a.com/, http://a.com/x, http://a.com/x/, http://a.com/x/y?q=1, http://b.a.com/x, the LRU without stems} (through set, __setitem__, set_lru with a stem list and set_lru with a serialized LRU in turn): match / match_lru return the latest value stored under the longest stored url whose stems (empty path stems aside) prefix the query's, None when there is none; len and iteration report each stored entry once" % maxlen)
     repo = ctx.repo
-    urls = ["http://a.com", "http://a.com/", "http://a.com/x", "http://a.com/x/", "http://a.com/x/y?q=1", "http://b.a.com/x"]
+    urls = ["http://a.com", "http://a.com/", "http://a.com/x", "http://a.com/x/", "http://a.com/x/y?q=1", "http://b.a.com/x", None]
     queries = ["http://a.com", "http://a.com/x", "http://a.com/x/", "http://a.com/x/y", "http://a.com/x/y?q=1#f", "http://a.com/xy", "http://b.a.com/x/z", "http://c.a.com/", "https://a.com/x", "http://a.org/x"]
     m = repo.mod("lru.trie")
     cls = m.klass("LRUTrie")
@@ -609,49 +629,54 @@ def rule_lrutrie_model(ctx, rule, maxlen=2):
     def key(u):
         return tuple(s for s in _ref_stems(u) if s != "p:")
 
-    n = 0
-    bad = None
+    def fresh():
+        return _instantiate(repo, "lru.trie", "LRUTrie")[2], {"__step": 0}
+
+    def step(t, ref, ui):
+        u = urls[ui]
+        stepno = ref["__step"]
+        ref["__step"] = stepno + 1
+        val = "v%d" % stepno
+        how = (stepno + ui) % 4
+        if u is None:
+            # the catch-all entry: an LRU without stems (or with the empty path stem only)
+            call(t, "set_lru", [] if stepno % 2 == 0 else ["p:"], val)
+            ref[()] = val
+            return
+        if how == 0:
+            call(t, "set", u, val)
+        elif how == 1:
+            call(t, "__setitem__", u, val)
+        elif how == 2:
+            call(t, "set_lru", list(_ref_stems(u)), val)
+        else:
+            call(t, "set_lru", "|".join(_ref_stems(u)) + "|", val)
+        ref[key(u)] = val
+
+    def observe(t, ref0):
+        ref = {k: v for k, v in ref0.items() if k != "__step"}
+        obs = [("len", call(t, "__len__")), ("iter", sorted(call(t, "__iter__")))]
+        exp = [("len", len(ref)), ("iter", sorted(ref.values()))]
+        for q in queries:
+            kq = key(q)
+            best = None
+            for k in sorted(ref, key=len):
+                if kq[:len(k)] == k:
+                    best = k
+            e = ref[best] if best is not None else None
+            obs.append(("match", q, call(t, "match", q)))
+            exp.append(("match", q, e))
+            obs.append(("match_lru", q, call(t, "match_lru", "|".join(_ref_stems(q)) + "|")))
+            exp.append(("match_lru", q, e))
+        return obs, exp
+
     try:
-        for L in range(0, maxlen + 1):
-            for hist in itertools.product(range(len(urls)), repeat=L):
-                n += 1
-                _, _, t = _instantiate(repo, "lru.trie", "LRUTrie")
-                ref = {}
-                for step, ui in enumerate(hist):
-                    u = urls[ui]
-                    val = "v%d" % step
-                    how = (step + ui) % 4
-                    if how == 0:
-                        call(t, "set", u, val)
-                    elif how == 1:
-                        call(t, "__setitem__", u, val)
-                    elif how == 2:
-                        call(t, "set_lru", list(_ref_stems(u)), val)
-                    else:
-                        call(t, "set_lru", "|".join(_ref_stems(u)) + "|", val)
-                    ref[key(u)] = val
-                obs = [("len", call(t, "__len__")), ("iter", sorted(call(t, "__iter__")))]
-                exp = [("len", len(ref)), ("iter", sorted(ref.values()))]
-                for q in queries:
-                    kq = key(q)
-                    best = None
-                    for k in sorted(ref, key=len):
-                        if kq[:len(k)] == k:
-                            best = k
-                    e = ref[best] if best is not None else None
-                    obs.append(("match", q, call(t, "match", q)))
-                    exp.append(("match", q, e))
-                    obs.append(("match_lru", q, call(t, "match_lru", "|".join(_ref_stems(q)) + "|")))
-                    exp.append(("match_lru", q, e))
-                if obs != exp:
-                    d = [(o, e) for o, e in zip(obs, exp) if o != e][0]
-                    bad = ([urls[i] for i in hist], d[0], d[1])
-                    break
-            if bad:
-                break
+        n, bad = _explore(lambda L: itertools.product(range(len(urls)), repeat=L), fresh, step, observe, maxlen)
+        if bad:
+            bad = ([urls[i] or "<the LRU without stems>" for i in bad[0]], bad[1], bad[2])
     except Unknown as e:
         ctx.undecided(rule, "LRUTrie not interpretable: %s" % e)
         return
     ctx.ob(rule, "lrutrie/histories", bad is None,
            "after storing %r in turn, LRUTrie reports %r where the longest-stored-prefix rule gives %r" % (bad or ("", "", "")), site,
-           witness=bad and "; ".join("set(%r)" % u for u in bad[0]), sample="%d histories of <= %d stores" % (n, maxlen))
+           witness=bad and "; ".join("set(%r)" % u if u.startswith("http") else "set_lru([])" for u in bad[0]), sample="%d histories of <= %d stores" % (n, maxlen))
